@@ -181,26 +181,35 @@ def insertArm (n : Node) (acc : PAcc) : PAcc :=
   if vl.isNull then { acc with panic := some "find_params.go: s.ValuesLists is nil" } else
   vl.items.foldl (fun acc row => if row.isKind "List" then insertAddRefs cols rv acc row.items false else acc) acc
 
+/-- the parent a placeholder is recorded with: the enclosing node, unless the placeholder IS the statement's
+LIMIT / OFFSET expression (the offset test comes last and wins) -/
+def effectiveParent (d : PDown) (num : Nat) : Parent :=
+  let parent := d.parent
+  let parent := if paramNumberOf d.limitCount == some num then Parent.limitCount else parent
+  if paramNumberOf d.limitOffset == some num then Parent.limitOffset else parent
+
+/-- whether Visit records the placeholder: always, except under a `(a, b) = ($1, $2)` multi-assignment target
+that is not its own column -/
+def paramSet (parent : Parent) (num : Nat) : Bool :=
+  match parent with
+  | .node p =>
+    if p.isKind "ResTarget" && (p.get "Val").isKind "MultiAssignRef" then
+      let multi := p.get "Val"
+      let src := multi.get "Source"
+      if src.isKind "RowExpr" then
+        ((src.get "Args").items.zipIdx).any (fun a =>
+          a.1.isKind "ParamRef" && (multi.get "Colno").natVal == a.2 + 1 && (a.1.get "Number").natVal == num)
+      else false
+    else true
+  | _ => true
+
 /-- the ParamRef arm of Visit -/
 def paramArm (d : PDown) (n : Node) (acc : PAcc) : PAcc :=
   let num := (n.get "Number").natVal
   let loc := (n.get "Location").intVal
-  let parent := d.parent
-  let parent := if paramNumberOf d.limitCount == some num then Parent.limitCount else parent
-  let parent := if paramNumberOf d.limitOffset == some num then Parent.limitOffset else parent
+  let parent := effectiveParent d num
   if acc.seen.contains loc then acc else
-  let set : Bool := match parent with
-    | .node p =>
-      if p.isKind "ResTarget" && (p.get "Val").isKind "MultiAssignRef" then
-        let multi := p.get "Val"
-        let src := multi.get "Source"
-        if src.isKind "RowExpr" then
-          ((src.get "Args").items.zipIdx).any (fun a =>
-            a.1.isKind "ParamRef" && (multi.get "Colno").natVal == a.2 + 1 && (a.1.get "Number").natVal == num)
-        else false
-      else true
-    | _ => true
-  if set then { acc with refs := acc.refs ++ [{ parent := parent, rv := d.rangeVar, number := num, location := loc }], seen := loc :: acc.seen }
+  if paramSet parent num then { acc with refs := acc.refs ++ [{ parent := parent, rv := d.rangeVar, number := num, location := loc }], seen := loc :: acc.seen }
   else acc
 
 /-- what Visit does to the copied fields -/
